@@ -4,7 +4,9 @@
 //!   feature [late=<n>]            start a feature; it is delivered after n extra Pending polls of the parser stream
 //!   | <gherkin text line>          (verbatim lines of the feature, prefixed with "| ")
 //!   parse_error [late=<n>]        deliver a parser error item
-//!   step <key> yields=<n> fail_first=<k> | always_fail | pass      behaviour for steps whose text is "<key>"
+//!   parser_end late=<n>           the parser stream ends only after n more Pending polls
+//!   step <key> yields=<n> [busy_ms=<m>] fail_first=<k> | always_fail | pass      behaviour for steps whose text is "<key>"
+//!                                 (busy_ms: after the yields keep yielding until m milliseconds of real time have passed)
 //!   nomatch <key>                 steps with this text have no definition
 //!   hook before|after <scenario|*> yields=<n> fail_first=<k> | always_fail | pass
 //!   hooks none|before|after|both
@@ -50,6 +52,7 @@ thread_local! {
 #[derive(Clone, Debug, Default)]
 struct Beh {
     yields: usize,
+    busy_ms: u64,
     fail_first: usize,
     always_fail: bool,
     eager: bool,
@@ -124,6 +127,13 @@ fn behave(kind: &str, key: String, w: usize, wc: usize) -> impl Future<Output = 
         PEAK.fetch_max(infl, Ordering::SeqCst);
         log(format!("enter {kind} [{key}] call={n} world=w{w} counter={wc} inflight={infl}"));
         YieldN(b.yields).await;
+        if b.busy_ms > 0 {
+            // stay in flight for real time: keep yielding (self-waking) until the deadline
+            let until = Instant::now() + std::time::Duration::from_millis(b.busy_ms);
+            while Instant::now() < until {
+                YieldN(1).await;
+            }
+        }
         INFLIGHT.fetch_sub(1, Ordering::SeqCst);
         if b.always_fail || n <= b.fail_first {
             log(format!("exit {kind} [{key}] call={n} panic"));
@@ -275,6 +285,10 @@ fn inner(lines: Vec<Vec<String>>, raw: String) -> Vec<String> {
     if let Some((late, text)) = cur.take() {
         items.push((late, Some(Ok(parse_feature(&text)))));
     }
+    // `parser_end late=<n>`: the stream reports its end only after n more Pending polls
+    if let Some(l) = lines.iter().find(|l| l[0] == "parser_end") {
+        items.push((kv(l, "late").map_or(0, |v| v.parse().unwrap()), None));
+    }
     let mut nomatch: Vec<String> = vec![];
     let mut ambiguous: Vec<String> = vec![];
     for l in &lines {
@@ -283,6 +297,7 @@ fn inner(lines: Vec<Vec<String>>, raw: String) -> Vec<String> {
                 let key = if l[0] == "step" { l[1].replace('_', " ") } else { format!("{}:{}", l[1], l[2]) };
                 let b = Beh {
                     yields: kv(l, "yields").map_or(0, |v| v.parse().unwrap()),
+                    busy_ms: kv(l, "busy_ms").map_or(0, |v| v.parse().unwrap()),
                     fail_first: kv(l, "fail_first").map_or(0, |v| v.parse().unwrap()),
                     always_fail: l.iter().any(|t| t == "always_fail"),
                     eager: l.iter().any(|t| t == "eager"),
